@@ -464,6 +464,16 @@ func (e *Engine) dependsOn(v ssa.Value, pred func(ssa.Value) bool, depth int) bo
 			}
 			return false
 		}
+		// a load from a local variable: follow what was stored into it
+		if ld, ok := x.(*ssa.UnOp); ok && ld.Op == token.MUL {
+			if al := rootAlloc(ld.X); al != nil {
+				for _, sv := range storesInto(al) {
+					if visit(sv, d) {
+						return true
+					}
+				}
+			}
+		}
 		if in, ok := x.(ssa.Instruction); ok {
 			for _, op := range in.Operands(nil) {
 				if op != nil && *op != nil && visit(*op, d) {
@@ -474,6 +484,49 @@ func (e *Engine) dependsOn(v ssa.Value, pred func(ssa.Value) bool, depth int) bo
 		return false
 	}
 	return visit(v, depth)
+}
+
+// rootAlloc: the local variable an address expression points into.
+func rootAlloc(addr ssa.Value) *ssa.Alloc {
+	for i := 0; i < 8; i++ {
+		switch x := addr.(type) {
+		case *ssa.Alloc:
+			return x
+		case *ssa.FieldAddr:
+			addr = x.X
+		case *ssa.IndexAddr:
+			addr = x.X
+		default:
+			return nil
+		}
+	}
+	return nil
+}
+
+// storesInto: every value stored into the local variable or a part of it.
+func storesInto(al *ssa.Alloc) []ssa.Value {
+	var out []ssa.Value
+	var walk func(v ssa.Value, d int)
+	walk = func(v ssa.Value, d int) {
+		refs := v.Referrers()
+		if refs == nil || d > 4 {
+			return
+		}
+		for _, ref := range *refs {
+			switch y := ref.(type) {
+			case *ssa.Store:
+				if y.Addr == v {
+					out = append(out, y.Val)
+				}
+			case *ssa.FieldAddr:
+				walk(y, d+1)
+			case *ssa.IndexAddr:
+				walk(y, d+1)
+			}
+		}
+	}
+	walk(al, 0)
+	return out
 }
 
 // returnDependsOn: some returned value of fn depends on a pred-value, or the
